@@ -24,7 +24,7 @@ class NoVerdict(Exception):
 class TLCResult:
     def __init__(self, rc, out, wall):
         self.rc, self.out, self.wall = rc, out, wall
-        self.lines = out.splitlines()
+        self.lines = out.split("\n")
         self.generated = self.distinct = 0
         self.depth = 0
         m = None
@@ -285,10 +285,13 @@ class Ctx:
         if not ndjson:
             return p.stdout
         res = []
-        for ln in p.stdout.splitlines():
+        for ln in p.stdout.split("\n"):      # not splitlines(): U+0085 / U+2028 inside JSON strings must not split a line
             ln = ln.strip()
             if ln.startswith("{") or ln.startswith("["):
-                res.append(json.loads(ln))
+                try:
+                    res.append(json.loads(ln))
+                except ValueError as e:
+                    raise NoVerdict("driver printed a malformed JSON line (%s): %s" % (e, ln[:300]))
         return res
 
     # ---------------------------------------------------------------- verdicts
@@ -423,6 +426,11 @@ def main(argv):
         rc = 2
     except subprocess.TimeoutExpired as e:
         sys.stderr.write("NO-VERDICT %s: timeout %s\n" % (pid, e))
+        rc = 2
+    except Exception:
+        # a bug in the check script is an infrastructure error (exit 2), never a violation (exit 1)
+        import traceback
+        sys.stderr.write("NO-VERDICT %s: uncaught exception in the check script\n%s\n" % (pid, traceback.format_exc()))
         rc = 2
     finally:
         ctx.cleanup()
